@@ -51,7 +51,7 @@ def _float_point(draw, span=4.0):
 
 @st.composite
 def planar_graph(draw, min_nodes=2, max_nodes=8, label_kinds=("int", "str"), families=None,
-                 self_listed=True, dup_locations=False):
+                 self_listed=True, dup_locations=False, chain_steps=None):
     fam = draw(st.sampled_from(families or ["grid", "grid", "float", "chain", "chain", "oneway", "twocomp"]))
     kind = draw(st.sampled_from(list(label_kinds)))
     n = draw(INT(max(min_nodes, 4 if fam in ("chain", "twocomp") else min_nodes), max(max_nodes, min_nodes)))
@@ -71,7 +71,7 @@ def planar_graph(draw, min_nodes=2, max_nodes=8, label_kinds=("int", "str"), fam
         for i in range(nmain):
             locs.append((round(y, 2), round(x, 2)))
             ang += pick(draw, [0.0, 0.0, 0.5, -0.5, 1.0, -1.0])
-            step = pick(draw, [0.5, 1.0, 1.0, 1.5])
+            step = pick(draw, chain_steps or [0.5, 1.0, 1.0, 1.5])
             y, x = y + step * math.sin(ang), x + step * math.cos(ang)
         for i in range(nmain - 1):
             add(i, i + 1, both=not chance(draw, 3))
@@ -83,6 +83,8 @@ def planar_graph(draw, min_nodes=2, max_nodes=8, label_kinds=("int", "str"), fam
         for i in range(n):
             for _attempt in range(6):
                 p = _float_point(draw) if fam == "float" else _lattice_point(draw)
+                if dup_locations and locs and chance(draw, 3):
+                    p = pick(draw, locs)
                 if dup_locations or p not in used:
                     break
             if p in used and not dup_locations:
@@ -124,12 +126,14 @@ def model_of(graph):
 
 
 @st.composite
-def trace_on(draw, graph, min_len=1, max_len=7, kinds=None, time=False):
+def trace_on(draw, graph, min_len=1, max_len=7, kinds=None, time=False, sigmas=None):
     loc, adj = model_of(graph)
     nodes = [lab for lab, _, _ in graph]
     kind = draw(st.sampled_from(kinds or ["walk", "walk", "walk", "sparse", "outlier", "exact", "repeat", "random"]))
-    T = draw(INT(min_len, max_len))
-    sigma = pick(draw, [0.05, 0.2, 0.2, 0.5, 1.5])
+    T = min(max_len, max(min_len, pick(draw, [1, 2, 3, 3, 4, 4, 5, 5, 6, 6, 7, 8, 9, 10, 12])))
+    if T > 7 and max_len > 7:
+        T = draw(INT(8, max_len))
+    sigma = pick(draw, sigmas or [0.05, 0.1, 0.2, 0.2, 0.5, 1.0])
     if kind == "exact":
         sigma = 0.0
     pts = []
@@ -143,7 +147,7 @@ def trace_on(draw, graph, min_len=1, max_len=7, kinds=None, time=False):
                         round(min(xs) - 1 + draw(INT(0, 100)) / 100.0 * (max(xs) - min(xs) + 2), 2)))
     else:
         for _ in range(T):
-            hops = draw(INT(0, 1)) if kind in ("walk", "exact", "repeat", "outlier") else draw(INT(1, 4))
+            hops = draw(INT(0, 1)) if kind in ("walk", "exact", "repeat", "outlier") else pick(draw, [1, 2, 2, 3, 3, 4])
             if prev is None:
                 hops = max(hops, 1)
             for _h in range(hops):
@@ -222,6 +226,22 @@ def match_case(draw, max_nodes=8, max_len=7, min_len=1, graph_kw=None, trace_kw=
     g = draw(planar_graph(max_nodes=max_nodes, **(graph_kw or {})))
     t = draw(trace_on(g, min_len=min_len, max_len=max_len, **(trace_kw or {})))
     c = draw(config(**(config_kw or {})))
+    return {"graph": g, "trace": t, "config": c}
+
+
+@st.composite
+def ne_case(draw, max_nodes=8, max_len=7, families=("simple", "simple_n", "distance"), width=None, first_order=False):
+    """Cases built so that non-emitting states are needed: long hops, little noise, sparse observations."""
+    g = draw(planar_graph(min_nodes=4, max_nodes=max_nodes, families=["chain"], chain_steps=[1.0, 1.5, 2.0], self_listed=False))
+    t = draw(trace_on(g, min_len=2, max_len=max_len, kinds=["sparse"], sigmas=[0.05, 0.1, 0.2]))
+    c = draw(config(families=families, ne=True, width=width, first_order=first_order))
+    c["obs_noise"] = draw(st.sampled_from([0.1, 0.25, 0.5]))
+    if c.get("max_dist") is not None and c["max_dist"] < 1.0:
+        c["max_dist"] = None
+    if c.get("max_dist_init") is not None and c["max_dist_init"] < 1.0:
+        c["max_dist_init"] = None
+    if c.get("min_prob_norm") is not None and c["min_prob_norm"] > 0.01:
+        c["min_prob_norm"] = draw(st.sampled_from([None, 0.001]))
     return {"graph": g, "trace": t, "config": c}
 
 
